@@ -243,7 +243,7 @@ prop("C13", "Bidirectional sync never echoes its own writes nor swallows foreign
      TWOSITE_ASSUME, max_inconclusive=1)
 
 prop("C14", "Bidirectional replay resumes from the contiguous committed prefix", "exploration",
-     "a case = target {standalone, 2-3 node cluster with generated bounds} with per-node request latency (0 / 0.3 / 2 / 6 ms, so that lanes complete out of order) x replay mode {sync, pipeline, parallel (0-3 lanes)} x window 1/2/4/16 x stream of 2-14 replay units (single SET or MULTI/EXEC of SETs on one slot, PINGs in between) x 0-2 source pauses (20 / 110 / 130 ms: the frontier is flushed every 100 ms) x 1-4 generated runs plus a final complete run and a final start; one cluster case in four is a lane race (the node owning the first unit is slow, the first run crashes while no frontier is stored), one in six a quiet full resynchronisation history. A run = (re)start {process: fresh output and namespace resolution; input: same output asked again} + StartPoint + Send from the named offset, with the source having produced a generated prefix of the units (possibly nothing new), optionally preceded by a full resynchronisation decided by the source under the same replication id (snapshot taken ahead of what the link replayed, which then counts as applied), ended by {crash: the target processes exactly N more requests counted from the start of Send; crash-start: N requests from the start of the run, start-up recovery included; stop: graceful cancel after N requests; none: everything produced applied, then a 0-230 ms linger}; optionally the n-th journal deletion is answered with an error. fault_points = runs executed. "
+     "a case = target {standalone, 2-3 node cluster with generated bounds} with per-node request latency (0 / 0.3 / 2 / 6 ms, so that lanes complete out of order) x replay mode {sync, pipeline, parallel (0-3 lanes)} x window 1/2/4/16 x stream of 2-14 replay units (single SET or MULTI/EXEC of SETs on one slot, PINGs in between) x 0-2 source pauses (20 / 110 / 130 ms: the frontier is flushed every 100 ms) x 1-4 generated runs plus a final complete run and a final start; one cluster case in four is a lane race (the node owning the first unit is slow, the first run crashes while no frontier is stored), one in six a quiet full resynchronisation history. A run = (re)start {process: fresh output and namespace resolution; input: same output asked again} + StartPoint + Send from the named offset, with the source having produced a generated prefix of the units (possibly nothing new), optionally preceded by a full resynchronisation decided by the source under the same replication id (snapshot taken ahead of what the link replayed, which then counts as applied), ended by {crash: the target processes exactly N more requests counted from the start of Send; crash-start: N requests from the start of the run, start-up recovery included; stop: graceful cancel after N requests; none: everything produced applied, then a 0-230 ms linger}; optionally the n-th journal deletion, or a generated subset of the first 16 journal deletions, is answered with an error (those records survive their collection). fault_points = runs executed. "
      "non-trivial = distinct case in which a start resumed mid-stream after a crash or a mid-way stop. "
      "Oracle (target's execution history; committed(u) = a transaction with u's marker executed): at every start the resume offset is the initial offset or the end of a committed unit, no uncommitted unit ends at or before it, it never decreases from one start to the next, StartPoint/start-up never fail on a healthy target and never fall back to a full sync; sync mode: resume = end of the last committed unit and no unit is committed twice over the whole history; every transaction with business commands is a marker + exactly one unit's commands + that unit's recovery record (latest / journal record + index entry); every stored frontier names a unit boundary with no uncommitted unit at or before it at that moment; after the final complete run every unit was committed at least once.",
      [{"pkg": "c14", "test": "TestC14",
